@@ -90,6 +90,20 @@ def order_of(eng, f: FuncInfo, it: ast.AST, defs: Defs, depth: int = 0) -> Tuple
         step = it.slice.step
         if step is not None:
             return "other:sliced with a step", it.value
+    if isinstance(it, ast.Call) and not (dotted(it.func) or "") in ("sorted", "list", "tuple", "iter", "enumerate", "reversed"):
+        # produced by a call (a helper, a memo, a method of a layout object): the order is whatever that call returns
+        ho = helper_order(eng, f, it)
+        if ho is not None and ho[0] in ("sorted", "declared"):
+            return ho[0], it
+        return "unknown:the list comes from %s, whose order is not decided" % norm(it.func, 40), it
+    if isinstance(it, ast.Subscript) and not isinstance(it.slice, ast.Slice):
+        # an element of a container (a memo of field lists ...): its order is whatever was stored
+        stored = [n.value for n in walk_local(f.node) if isinstance(n, ast.Assign) and len(n.targets) == 1 and isinstance(n.targets[0], ast.Subscript) and norm(n.targets[0].value) == norm(it.value)]
+        if stored and depth < 3:
+            os_ = {order_of(eng, f, v, defs, depth + 1)[0] for v in stored}
+            if len(os_) == 1:
+                return next(iter(os_)), it
+        return "unknown:the list is read from %s, whose contents are not followed" % norm(it.value, 40), it
     return "declared", it
 
 
@@ -335,7 +349,7 @@ def run(eng, rep) -> None:
                     cos = {order_of(eng, c_, a_, Defs(c_.node))[0] for c_, a_ in via}
                     if cos == {"sorted"}:
                         order = "sorted"
-                    elif "declared" not in cos:
+                    elif "declared" not in cos or any(c_.startswith("unknown:") for c_ in cos):
                         order = "other:the order of the list is decided by the callers in a form not decided (%s)" % ", ".join(sorted(cos))[:80]
                 site = "%s %s over %s" % (kind, norm(it, 80), norm(base, 40))
                 inventory.append({"function": f.qual, "iter": norm(it, 80), "order": order, "relevant": bool(why)})
@@ -349,8 +363,8 @@ def run(eng, rep) -> None:
                     rep.violation("R15.5", f.file, f.qual, site, "%s, not ascending field_id (%s)" % (order[9:], why))
                 elif order == "declared":
                     rep.violation("R15.6", f.file, f.qual, site, "fields are serialised in declaration order, not ascending field_id (%s)" % why)
-                elif "decided by the callers" in order:
-                    rep.undecided("R15.1", f.file, f.qual, site, "%s (%s)" % (order[6:], why))
+                elif "decided by the callers" in order or order.startswith("unknown:"):
+                    rep.undecided("R15.1", f.file, f.qual, site, "%s (%s)" % (order.split(":", 1)[1], why))
                 else:
                     rep.violation("R15.1", f.file, f.qual, site, "%s (%s)" % (order[6:], why))
     rep.floor("R15.1", "wire-relevant Python iterations over struct fields", n_rel, 2)
